@@ -6,6 +6,7 @@ import (
 	"os/exec"
 	"path/filepath"
 	"strings"
+	"syscall"
 	"time"
 
 	"vctl/internal/e1"
@@ -128,6 +129,116 @@ func c10LockLeftBehind(run *report.Run, n int) {
 		if _, err := os.Stat(lockFile); err == nil {
 			keep = !run.Violation("lock-file-left-behind-by-a-successful-build mode="+md.name, "the follow-up build exited 0 but its lock file still exists",
 				map[string]any{"mode": md}) || keep
+		}
+	})
+}
+
+// c10InterruptedWaiter: build A holds the workspace lock (a slow target), build B starts, waits
+// for the lock and is interrupted (SIGINT / SIGTERM) while waiting, then build C starts. B's
+// way out must leave A's lock alone: the lock file still names A while A runs, no command of C
+// starts before A's build is over, and A and C both end normally.
+func c10InterruptedWaiter(run *report.Run, n int) {
+	st, err := e1.Prepare(run, false)
+	if err != nil {
+		run.Infra(err.Error())
+		return
+	}
+	defer st.Cleanup()
+	e1.Parallel(n, func(i int) {
+		r := rng.Derive(uint64(run.Seed), "C10-interrupted-waiter", fmt.Sprint(i))
+		s := &spec.Spec{Files: map[string]string{"p/a.txt": "a\n", "p/b.txt": "b\n"}}
+		slow := &spec.Target{Pkg: "p", Name: "slow", Salt: r.Word(4, 8), Inputs: []string{"a.txt"}, Outs: []spec.Out{{Kind: "file", Path: "slow.out"}}, SleepMs: 3500}
+		quick := &spec.Target{Pkg: "p", Name: "quick", Salt: r.Word(4, 8), Inputs: []string{"b.txt"}, Outs: []spec.Out{{Kind: "file", Path: "quick.out"}}}
+		s.Targets = []*spec.Target{slow, quick}
+		env, err := e1.NewEnv(st.Base, fmt.Sprintf("iw%d", i), st.Grog, st.Vctl, s, grog.Config{NumWorkers: 2})
+		if err != nil {
+			run.Infra(err.Error())
+			return
+		}
+		keep := false
+		defer func() {
+			if !keep {
+				env.Cleanup()
+			}
+		}()
+		lockFile := filepath.Join(filepath.Dir(env.CacheDir()), "lockfile")
+		logA := filepath.Join(env.Dir, "hooks-a.jsonl")
+		logB := filepath.Join(env.Dir, "hooks-b.jsonl")
+		saw := func(log, name string) bool {
+			for _, ev := range e1.ReadHookLog(log) {
+				if ev.Name == name {
+					return true
+				}
+			}
+			return false
+		}
+		sig := rng.Pick(r, []syscall.Signal{syscall.SIGINT, syscall.SIGTERM})
+		doneA := make(chan *grog.Result, 1)
+		var pidA int
+		go func() {
+			doneA <- env.M.Run([]string{"build", "//p:slow"}, grog.RunOpts{Build: "A", Timeout: 60 * time.Second, Env: []string{"GROG_VERIF_LOG=" + logA},
+				AfterStart: func(pid int) { pidA = pid }})
+		}()
+		for w := 0; w < 250 && !saw(logA, "build.locked"); w++ {
+			time.Sleep(20 * time.Millisecond)
+		}
+		signalled := false
+		resB := env.M.Run([]string{"build", "//p:quick"}, grog.RunOpts{Build: "B", Timeout: 40 * time.Second, Env: []string{"GROG_VERIF_LOG=" + logB},
+			AfterStart: func(pid int) {
+				for w := 0; w < 150; w++ {
+					if saw(logB, "lock.wait") {
+						time.Sleep(time.Duration(r.Range(0, 120)) * time.Millisecond)
+						signalled = true
+						_ = syscall.Kill(pid, sig)
+						return
+					}
+					time.Sleep(20 * time.Millisecond)
+				}
+			}})
+		aStillRunning := len(doneA) == 0
+		lockContent := ""
+		if b, err := os.ReadFile(lockFile); err == nil {
+			lockContent = strings.TrimSpace(string(b))
+		}
+		var resC *grog.Result
+		if signalled && aStillRunning {
+			resC = env.M.Run([]string{"build", "//p:quick"}, grog.RunOpts{Build: "C", Timeout: 60 * time.Second})
+		}
+		resA := <-doneA
+		run.Eval(1)
+		run.Count("holder+interrupted-waiter+newcomer_runs", 1)
+		if !signalled || !aStillRunning || resC == nil {
+			run.Count("interrupted_waiter_cases_not_judged(timing)", 1)
+			return
+		}
+		run.Nontrivial(fmt.Sprintf("interrupted-waiter|%s|B-exit%d", sig, resB.Exit))
+		replay := map[string]any{"signal": sig.String(), "A": tail(resA.Stdout+resA.Stderr, 600), "B": tail(resB.Stdout+resB.Stderr, 600), "C": tail(resC.Stdout+resC.Stderr, 600)}
+		if lockContent != fmt.Sprint(pidA) {
+			keep = !run.Violation("holder-lock-file-gone cause=interrupted-waiter", fmt.Sprintf("after the waiting build was interrupted (%s) the lock file of the build that still holds the lock is %q (holder pid %d)", sig, lockContent, pidA), replay) || keep
+			return
+		}
+		// C must not have run its command while A was running: in the shared trace every line of A
+		// precedes every line of C
+		b, _ := os.ReadFile(env.M.Trace)
+		lastA, firstC := -1, -1
+		for li, line := range strings.Split(string(b), "\n") {
+			f := strings.Fields(line)
+			if len(f) < 3 {
+				continue
+			}
+			if f[1] == "A" {
+				lastA = li
+			}
+			if f[1] == "C" && firstC < 0 {
+				firstC = li
+			}
+		}
+		if firstC >= 0 && lastA > firstC {
+			keep = !run.Violation("two-builds-overlap cause=interrupted-waiter", "a command of the third build started before the build holding the lock had finished", replay) || keep
+			return
+		}
+		if resA.Exit != 0 || resC.Exit != 0 || resA.TimedOut || resC.TimedOut {
+			keep = !run.Violation("holder-or-newcomer-failed cause=interrupted-waiter", fmt.Sprintf("holder exit=%d, newcomer exit=%d", resA.Exit, resC.Exit), replay) || keep
 		}
 	})
 }
